@@ -201,6 +201,36 @@ pub fn entries(s: &Setup, after_transfer: bool) -> Vec<Entry> {
     );
     nl.funds = vec![coin(1000, "uwhale")];
     v.push(nl);
+    // the same callback where the caller names itself as the source vault ("$CALLER" is replaced by the
+    // sender's address): only for the registered vault do sender, claimed source and factory entry agree
+    let mut nl2 = e(
+        "vault_router.NextLoan[source_vault=caller]",
+        vr,
+        &white_whale_std::vault_network::vault_router::ExecuteMsg::NextLoan {
+            initiator: Addr::unchecked(ALICE),
+            source_vault: "$CALLER".to_string(),
+            source_vault_asset_info: native("uwhale"),
+            payload: vec![],
+            to_loan: vec![],
+            loaned_assets: loaned.clone(),
+        },
+        &[h.vault.vault.as_str()],
+    );
+    nl2.funds = vec![coin(1000, "uwhale")];
+    v.push(nl2);
+    v.push(e(
+        "vault_router.NextLoan[source_vault=caller,nothing-loaned]",
+        vr,
+        &white_whale_std::vault_network::vault_router::ExecuteMsg::NextLoan {
+            initiator: Addr::unchecked(ALICE),
+            source_vault: "$CALLER".to_string(),
+            source_vault_asset_info: native("uwhale"),
+            payload: vec![],
+            to_loan: vec![],
+            loaned_assets: vec![],
+        },
+        &[h.vault.vault.as_str()],
+    ));
     v.push(e("vault_router.CompleteLoan", vr, &white_whale_std::vault_network::vault_router::ExecuteMsg::CompleteLoan { initiator: Addr::unchecked(ALICE), loaned_assets: loaned }, &[vr.as_str()]));
     // ---- fee collector / distributor / lair
     v.push(e(
@@ -290,12 +320,20 @@ fn is_allowed(en: &Entry, caller_addr: &str, current_owner: &str) -> bool {
 pub fn run_case(w: &mut World, s: &Setup, en: &Entry, caller: &(String, String), after_transfer: bool, cx: &mut Cx) {
     w.restore(&s.snap);
     let current_owner = if after_transfer { NEWOWNER } else { OWNER };
+    // every caller can afford the attached funds, so that a rejection is the contract's decision and not the bank's
+    if !caller.1.starts_with("proxy:") {
+        for c in &en.funds {
+            w.mint_native(&caller.1, c.amount.u128(), &c.denom);
+        }
+    }
     let before = w.kv_clone();
-    let (r, sender_addr) = if let Some(proxy) = caller.1.strip_prefix("proxy:") {
-        let inner: CosmosMsg = WasmMsg::Execute { contract_addr: en.contract.clone(), msg: en.msg.clone(), funds: vec![] }.into();
-        (w.exec(MALLORY, proxy, &AdvMsg::Forward { msgs: vec![inner] }, &[]), proxy.to_string())
+    let sender_addr = caller.1.strip_prefix("proxy:").unwrap_or(&caller.1).to_string();
+    let msg = if en.label.contains("=caller") { Binary::from(String::from_utf8(en.msg.to_vec()).unwrap().replace("$CALLER", &sender_addr).into_bytes()) } else { en.msg.clone() };
+    let r = if let Some(proxy) = caller.1.strip_prefix("proxy:") {
+        let inner: CosmosMsg = WasmMsg::Execute { contract_addr: en.contract.clone(), msg, funds: vec![] }.into();
+        w.exec(MALLORY, proxy, &AdvMsg::Forward { msgs: vec![inner] }, &[])
     } else {
-        (w.exec_raw(&caller.1, &en.contract, en.msg.clone(), &en.funds), caller.1.clone())
+        w.exec_raw(&caller.1, &en.contract, msg, &en.funds)
     };
     let allowed = is_allowed(en, &sender_addr, current_owner);
     if allowed {
